@@ -208,6 +208,20 @@ CLAIMS = {
         'proved; soundness of the parser (accepted => a rendering) is not proved either. No axioms.',
    technique='Coq completeness proof of a parser model against a rendering relation (mutual induction, explicit fuel bound) + correspondence + oracle',
    ref='section 9, C03'),
+ 'C15': dict(
+   category='proof',
+   text='Coq theorems on the plain-JSON model (jlen = where the parser stops): for every rendering of a value with any leading blank space, '
+        'the length is the end of the root value whatever follows it (anything that cannot extend a number), hence two different trailers '
+        'give the same length, Len <= len, the prefix up to Len is the schema (and is accepted with the same tree, C03), and Len of the '
+        'prefix is Len. Tie: Len() of the implementation against jlen on random JSON documents followed by LF/CRLF and every first byte '
+        'of a trailer except "/" and "#", and by foreign bytes on the same line. For schemas with annotations, notes and comments the four '
+        'clauses of the statement are decided on the implementation itself (prefix verdict and AST, idempotence, 254 trailer first bytes x '
+        'LF/CRLF) over the sample schemas and 25 annotated ones.',
+   note='Trusted: Coq kernel; model tied by correspondence for plain JSON; for annotated schemas there is no model - the clauses are checked '
+        'as relations between runs of the implementation (partial). A trailer whose first non-blank byte is "/" or "#" continues the '
+        'schema and is outside the statement. No axioms.',
+   technique='Coq theorems on the parser model (boundary independent of the continuation) + correspondence + metamorphic checks on the implementation',
+   ref='section 9, C15'),
 }
 
 def main():
